@@ -47,7 +47,9 @@ ASSUMPTIONS = [
 
 VALID = [("0", False), ("1", True), ("true", True), ("false", False), ("True", True), ("FALSE", False), ("TRUE", True), ("False", False),
          ("tRuE", True), ("fAlse", False), (True, True), (False, False)]
-INVALID = ["yes", "no", "2", "", "on", "off", 0, 1, None, 1.5, "tru", " 1", "1 ", b"1", "01", "-1", [True], "disable"]
+INVALID = ["yes", "no", "2", "", "on", "off", 0, 1, None, 1.5, "tru", " 1", "1 ", b"1", "01", "-1", [True], "disable",
+           # look-alikes that equal an accepted word only under some Unicode normalisation (case folding, NFKC, invisible characters)
+           "fal\u017fe", "FAL\u017fE", "\uff54\uff52\uff55\uff45", "\uff11", "true\u200b", "\u0660", "fa\u2113se"]
 
 
 def set_valid(case, value, key="jaxtyping_disable"):
